@@ -1,6 +1,6 @@
 """C10 - cancellation stops scheduling and ends in canceled."""
 from ovf import workloads
-from ovf.props.common import batches, scale, ASSUME_SIM
+from ovf.props.common import batches, family_slices, scale, ASSUME_SIM
 from ovf.sim import explore
 from ovf.sim.provider import Monitor, h64
 
@@ -12,7 +12,7 @@ RULE = ("base histories = generated definitions (downstream joins, retries, with
         "action still reports (any outcome), then the output is rendered; asserted at every later step: no offer, "
         "status canceling while an action is in flight and canceled as soon as none is, final status canceled after "
         "rendering, rendering does not raise and every output variable shows its initial value or a value published "
-        "for it; non-trivial = cancel accepted with >= 1 action in flight; distinct = (definition, history, position, "
+        "for it; additionally the decision-shape family (exhaustive in the thorough tier, a rotating slice in the quick tier): every acyclic edge set over 4 tasks with a join x condition succeeded/failed per edge x outcome per task (4128 definitions); non-trivial = cancel accepted with >= 1 action in flight; distinct = (definition, history, position, "
         "form) digest")
 ASSUMPTIONS = ASSUME_SIM + ["which published value an output variable shows after a cancel is left open by the property; only membership is checked"]
 
@@ -139,8 +139,11 @@ def cancel_sweep(job):
 
 def jobs(tier, seed):
     P = dict(p_intjoin=0.3, p_items=0.25, p_retry=0.2, p_join=0.7, nmax=6)
-    return batches("cancel_sweep", scale(tier, 80, 2500), scale(tier, 5, 40), gen="mix", p_loop=0.25, P=P, gseed=seed,
+    js = batches("cancel_sweep", scale(tier, 80, 2500), scale(tier, 5, 40), gen="mix", p_loop=0.25, P=P, gseed=seed,
                    thin=scale(tier, 3, 1), name="cancel-sweep")
+    # decision-shape family (exhaustive in the thorough tier, a rotating slice in the quick tier): every acyclic edge set over 4 tasks with a join x condition succeeded/failed per edge x outcome per task (4128 definitions)
+    js += family_slices("cancel_sweep", 4128, 48, tier, seed, gen="cshape", thin=scale(tier, 3, 1), p_fail=0.0, name="decision-shapes-cancel-sweep")
+    return js
 
 
 def reach(m):
